@@ -1,7 +1,368 @@
-//! C12 — not implemented yet (see DESIGN.md section 4).
-use kit::Run;
-use serde_json::Value;
+//! C12 — hash-binding layout maps are ordered, disjoint and cover the file.
+//!
+//! S-inp: `box_map` (hook over AssetBoxHash::get_box_map) for every box-hash capable seed (JPEG incl. restart
+//! markers / trailing data / short APP11 / foreign JUMBF, PNG incl. trailing data, GIF incl. extensions and
+//! 87a, JPEG XL incl. a foreign jumb box, sidecar), without a manifest and with manifests of several sizes,
+//! plus EVERY single-byte mutant (position x value set) of each of these files that the handler still maps.
+//! `object_locations` (data-hash regions) for every seed of every writable format with manifests of several
+//! sizes.
+//! Oracle (property text): entries ordered by offset; pairwise non-overlapping; inside the file; every byte
+//! of the file outside the manifest container is covered by a non-manifest entry; no non-manifest entry
+//! covers manifest bytes and no manifest ("C2PA") entry covers non-manifest bytes (independent walker);
+//! the Cai data-hash region lies inside the file and overlaps no other reported region.
+//!
+//! Mutants caught (tools/mutant_run.sh A <diff> C12 quick):
+//!   C12-gif-no-trailer.diff  (GIF box map omits the trailer byte)  -> VIOLATION
 
-pub fn run(_run: &Run, _replay: Option<&Value>) {
-    kit::ev::machinery("C12: check not implemented");
+use kit::embed::{self, box_map, locations, save};
+use kit::walk;
+use kit::{assets::Asset, par, Run};
+use serde_json::{json, Value};
+
+fn box_hash_seeds() -> Vec<Asset> {
+    embed::seeds().into_iter().filter(|a| matches!(embed::kind(a), walk::Kind::Jpeg | walk::Kind::Png | walk::Kind::Gif | walk::Kind::Jxl | walk::Kind::C2pa)).collect()
+}
+
+/// Failures of one box map: (class, detail). `container` = manifest container ranges from the independent
+/// walker, or None when the walker cannot interpret the (mutated) file.
+fn judge_map(file_len: usize, map: &[(String, u64, u64)], container: Option<&[walk::R]>) -> Vec<(String, String)> {
+    let mut f = vec![];
+    let n = file_len as u64;
+    // ordered
+    for w in map.windows(2) {
+        if w[1].1 < w[0].1 {
+            f.push(("unordered".to_string(), format!("entry {}@{} listed before {}@{}", w[0].0, w[0].1, w[1].0, w[1].1)));
+            break;
+        }
+    }
+    // within the file
+    for (name, s, l) in map {
+        if s.checked_add(*l).map(|e| e > n).unwrap_or(true) {
+            f.push((format!("outside-file entry={name}"), format!("{name}@{s}+{l} exceeds the file length {n}")));
+        }
+    }
+    // pairwise disjoint
+    let mut sorted: Vec<&(String, u64, u64)> = map.iter().filter(|e| e.2 > 0).collect();
+    sorted.sort_by_key(|e| e.1);
+    for w in sorted.windows(2) {
+        if w[0].1 + w[0].2 > w[1].1 {
+            f.push((format!("overlap {}+{}", base_name(&w[0].0), base_name(&w[1].0)), format!("{}@{}+{} overlaps {}@{}+{}", w[0].0, w[0].1, w[0].2, w[1].0, w[1].1, w[1].2)));
+        }
+    }
+    // coverage (interval arithmetic)
+    let clip = |v: Vec<(u64, u64)>| -> Vec<(u64, u64)> { norm(v.into_iter().map(|(s, e)| (s.min(n), e.min(n))).collect()) };
+    let hashed = clip(map.iter().filter(|e| e.0 != "C2PA").map(|e| (e.1, e.1.saturating_add(e.2))).collect());
+    let c2pa = clip(map.iter().filter(|e| e.0 == "C2PA").map(|e| (e.1, e.1.saturating_add(e.2))).collect());
+    let file = vec![(0u64, n)];
+    match container {
+        Some(c) => {
+            let cont = clip(c.iter().map(|r| (r.start as u64, r.end as u64)).collect());
+            let unc = minus(&minus(&file, &cont), &hashed);
+            if let Some((s, e)) = unc.first() {
+                let hidden = !inter(&[(*s, *e)], &c2pa).is_empty();
+                let place = if *e == n { "at-end" } else { "inside" };
+                if hidden {
+                    f.push(("non-manifest-bytes-under-C2PA-entry".to_string(), format!("bytes {s}..{e} are not part of the manifest container but are only covered by an entry named C2PA (excluded from hashing)")));
+                } else {
+                    f.push((format!("uncovered {place}"), format!("bytes {s}..{e} (of {file_len}) are outside the manifest container and covered by no entry ({} uncovered run(s))", unc.len())));
+                }
+            }
+            if let Some((s, e)) = inter(&hashed, &cont).first() {
+                f.push(("manifest-bytes-under-hashed-entry".to_string(), format!("manifest container bytes {s}..{e} are covered by a non-manifest entry")));
+            }
+        }
+        None => {
+            // walker-free part: bytes covered by no entry at all
+            let unc = minus(&minus(&file, &hashed), &c2pa);
+            if let Some((s, e)) = unc.first() {
+                let place = if *e == n { "at-end" } else { "inside" };
+                f.push((format!("uncovered {place}"), format!("bytes {s}..{e} (of {file_len}) are covered by no entry at all ({} run(s))", unc.len())));
+            }
+        }
+    }
+    f
+}
+
+/// sorted, merged, non-empty half-open intervals
+fn norm(mut v: Vec<(u64, u64)>) -> Vec<(u64, u64)> {
+    v.retain(|(s, e)| s < e);
+    v.sort();
+    let mut out: Vec<(u64, u64)> = vec![];
+    for (s, e) in v {
+        match out.last_mut() {
+            Some(l) if s <= l.1 => l.1 = l.1.max(e),
+            _ => out.push((s, e)),
+        }
+    }
+    out
+}
+/// a \ b for normalised interval lists
+fn minus(a: &[(u64, u64)], b: &[(u64, u64)]) -> Vec<(u64, u64)> {
+    let mut out = vec![];
+    for &(s, e) in a {
+        let mut cur = s;
+        for &(bs, be) in b {
+            if be <= cur || bs >= e {
+                continue;
+            }
+            if bs > cur {
+                out.push((cur, bs));
+            }
+            cur = cur.max(be);
+            if cur >= e {
+                break;
+            }
+        }
+        if cur < e {
+            out.push((cur, e));
+        }
+    }
+    out
+}
+fn inter(a: &[(u64, u64)], b: &[(u64, u64)]) -> Vec<(u64, u64)> {
+    let mut out = vec![];
+    for &(s, e) in a {
+        for &(bs, be) in b {
+            let (x, y) = (s.max(bs), e.min(be));
+            if x < y {
+                out.push((x, y));
+            }
+        }
+    }
+    out
+}
+
+fn base_name(n: &str) -> String {
+    // RST0..7 -> RSTn, APP0..15 -> APPn : keeps keys stable
+    let t = n.trim_end_matches(|c: char| c.is_ascii_digit());
+    if t.len() < n.len() && (t == "RST" || t == "APP") {
+        format!("{t}n")
+    } else {
+        n.to_string()
+    }
+}
+
+/// `inherited`: failure classes the unmutated file already shows (reported once there, only counted for its mutants).
+/// Returns the failure classes found.
+fn map_case(run: &Run, a: &Asset, variant: &str, data: &[u8], mutated: Option<(usize, u8)>, inherited: &[String], use_walker: bool) -> Vec<String> {
+    run.eval();
+    let cj = json!({"part":"boxmap","asset":a.name,"variant":variant,"mutation":mutated.map(|(p,v)| json!([p,v]))});
+    let m = match box_map(a.mime, data) {
+        None => kit::ev::machinery(format!("C12: {} has no box-hash support", a.name)),
+        Some(Err(e)) if e.starts_with("PANIC") => {
+            run.outcome("panic");
+            embed::report(run, format!("boxmap panic fmt={:?} asset={}", embed::kind(a), a.name), format!("{variant} {mutated:?}: {e}"), cj);
+            return vec![];
+        }
+        Some(Err(e)) => {
+            if mutated.is_none() {
+                kit::ev::machinery(format!("C12: box map of unmutated seed {} ({variant}) fails: {e}", a.name));
+            }
+            run.outcome(format!("rejected {e}"));
+            return vec![];
+        }
+        Some(Ok(m)) => m,
+    };
+    let k = embed::kind(a);
+    // the sidecar is its own container whatever its bytes are
+    let cont = walk::manifests(k, data).ok().filter(|_| use_walker || k == walk::Kind::C2pa).map(|ms| ms.into_iter().flat_map(|m| m.ranges).collect::<Vec<_>>());
+    if mutated.is_none() && cont.is_none() {
+        kit::ev::machinery(format!("C12: walker cannot interpret unmutated seed {} ({variant})", a.name));
+    }
+    // for mutants the walker's view of the container is used only when the walker still parses the file
+    let fails = judge_map(data.len(), &m, cont.as_deref());
+    if fails.is_empty() {
+        run.outcome(if mutated.is_some() { "mutant-map-ok" } else { "map-ok" });
+    }
+    run.nontrivial(format!("{}/{variant}/{mutated:?}", a.name));
+    let classes: Vec<String> = fails.iter().map(|f| f.0.clone()).collect();
+    for (c, d) in fails {
+        if inherited.contains(&c) {
+            run.outcome(format!("mutant inherits from its seed: {c}"));
+            continue;
+        }
+        run.outcome(c.clone());
+        let origin = if mutated.is_some() { "mutant" } else { "seed" };
+        embed::report(run, format!("boxmap {c} fmt={:?} origin={origin}", k), format!("{} {variant} {}: {d}", a.name, mutated.map(|(p, v)| format!("byte {p} := {v:#04x}")).unwrap_or_default()), cj.clone());
+    }
+    classes
+}
+
+fn variants(a: &Asset) -> Vec<(String, Vec<u8>)> {
+    let mut v = vec![("bare".to_string(), a.data.clone())];
+    for n in [embed::MIN_STORE, 301, 70_001] {
+        match save(a.mime, &a.data, &embed::store(n, 1)) {
+            Ok(o) => v.push((format!("store{n}"), o)),
+            Err(e) => kit::ev::machinery(format!("C12: seed {} rejects a {n}-byte store: {e}", a.name)),
+        }
+    }
+    v
+}
+
+fn loc_case(run: &Run, a: &Asset, variant: &str, data: &[u8], has_manifest: bool) {
+    run.eval();
+    let cj = json!({"part":"locations","asset":a.name,"variant":variant});
+    let k = embed::kind(a);
+    let locs = match locations(a.mime, data) {
+        Ok(l) => l,
+        Err(e) => {
+            run.outcome("locations-error");
+            embed::report(run, format!("locations error fmt={k:?} {}", embed::kind_of_err(&e)), format!("{} {variant}: {e}", a.name), cj);
+            return;
+        }
+    };
+    let cai: Vec<_> = locs.iter().filter(|l| l.2 == "Cai").collect();
+    if cai.is_empty() {
+        run.outcome("no-cai-region-reported");
+        return;
+    }
+    run.nontrivial(format!("loc/{}/{variant}", a.name));
+    let mut ok = true;
+    for c in &cai {
+        let (s, e) = (c.0, c.0 + c.1);
+        // without a manifest the handlers report a placeholder in the coordinates of the future file
+        if has_manifest && e > data.len() {
+            ok = false;
+            embed::report(run, format!("locations cai-outside-file fmt={k:?}"), format!("{} {variant}: Cai region {s}..{e}, file has {} bytes", a.name, data.len()), cj.clone());
+        }
+        for o in locs.iter().filter(|l| l.2 != "Cai" && l.1 > 0) {
+            if o.0 < e && s < o.0 + o.1 {
+                ok = false;
+                embed::report(run, format!("locations cai-overlaps-{} fmt={k:?} manifest={has_manifest}", o.2), format!("{} {variant}: Cai region {s}..{e} overlaps {} region {}..{}", a.name, o.2, o.0, o.0 + o.1), cj.clone());
+            }
+        }
+        if has_manifest {
+            if let Ok(ms) = walk::manifests(k, data) {
+                // the reported region must not reach into non-manifest bytes
+                let outside = (s..e.min(data.len())).find(|p| !ms.iter().any(|m| m.ranges.iter().any(|r| r.start <= *p && *p < r.end)));
+                if let Some(p) = outside {
+                    ok = false;
+                    embed::report(run, format!("locations cai-covers-non-manifest fmt={k:?}"), format!("{} {variant}: Cai region {s}..{e} includes byte {p} which is outside the manifest container", a.name), cj.clone());
+                }
+            }
+        }
+    }
+    run.outcome(if ok { "locations-ok" } else { "locations-bad" });
+}
+
+pub fn run(run: &Run, replay: Option<&Value>) {
+    run.rule("box maps: per box-hash seed x {bare, store46, store301, store70001} the unmutated file and every single-byte mutant (every position x value set) that get_box_map still accepts; \
+              oracle = ordered, disjoint, inside file, non-manifest entries cover exactly file minus manifest container (container from the independent walker; for mutants the walker is used only when it locates the manifest container exactly where it is in the seed and the mutated byte lies outside it, otherwise 'covered by no entry at all'; a failure class the unmutated file already shows is reported there and only counted for its mutants). \
+              data-hash regions: per seed of every writable format x the same variants; Cai region inside the file (when a manifest exists), overlapping no other region and no non-manifest byte. \
+              non-trivial = maps / location lists actually returned and judged.");
+    run.assume("an entry named C2PA is a manifest entry (excluded from hashing by BoxHash); everything else is hashed");
+    run.assume("without a manifest, object_locations reports a placeholder in the coordinates of the file that will exist after embedding, so only mutual non-overlap is judged there");
+    if let Some(c) = replay {
+        let a = embed::seed(c["asset"].as_str().unwrap_or(""));
+        let var = c["variant"].as_str().unwrap_or("bare");
+        let mut data = match var.strip_prefix("store").and_then(|n| n.parse::<usize>().ok()) {
+            Some(n) => save(a.mime, &a.data, &embed::store(n, 1)).unwrap_or_else(|e| kit::ev::machinery(format!("C12 replay: {e}"))),
+            None => a.data.clone(),
+        };
+        if c["part"] == "locations" {
+            loc_case(run, &a, var, &data, var != "bare");
+        } else {
+            let orig = data.clone();
+            let m = c["mutation"].as_array().map(|m| (m[0].as_u64().unwrap_or(0) as usize, m[1].as_u64().unwrap_or(0) as u8));
+            if let Some((p, v)) = m {
+                data[p] = v;
+            }
+            println!("box map: {:?}", box_map(a.mime, &data));
+            let seed_c: Vec<walk::R> = walk::manifests(embed::kind(&a), &orig).map(|ms| ms.into_iter().flat_map(|x| x.ranges).collect()).unwrap_or_default();
+            let same = walk::manifests(embed::kind(&a), &data).map(|ms| ms.into_iter().flat_map(|x| x.ranges).collect::<Vec<_>>() == seed_c).unwrap_or(false);
+            let inside = m.map(|(p, _)| seed_c.iter().any(|r| r.start <= p && p < r.end)).unwrap_or(false);
+            map_case(run, &a, var, &data, m, &[], same && !inside);
+        }
+        println!("replay: {} violation(s)", run.violation_count());
+        return;
+    }
+    let bh = box_hash_seeds();
+    // determinism
+    for a in &bh {
+        if box_map(a.mime, &a.data) != box_map(a.mime, &a.data) {
+            kit::ev::machinery("C12: nondeterministic box map");
+        }
+    }
+    let thorough = run.tier.is_thorough();
+    let mut jobs: Vec<(usize, String, Vec<u8>)> = vec![];
+    for (i, a) in bh.iter().enumerate() {
+        for (name, data) in variants(a) {
+            jobs.push((i, name, data));
+        }
+    }
+    // unmutated
+    let mut inherited: Vec<Vec<String>> = vec![];
+    for (i, name, data) in &jobs {
+        inherited.push(map_case(run, &bh[*i], name, data, None, &[], true));
+    }
+    // mutants: positions = whole file for files <= 1200 bytes, else first 600 + last 600 bytes (the store padding in
+    // the middle is opaque payload; positions are enumerated completely inside these windows)
+    let values = |orig: u8, big: bool| -> Vec<u8> {
+        let mut v: Vec<u8> = if thorough && !big { (0..=255u8).collect() } else if thorough { vec![0x00, 0x01, 0x02, 0x7F, 0x80, 0xFF, 0xFE, 0xD8, 0xD9, 0xEB, orig.wrapping_add(1), orig.wrapping_sub(1), orig ^ 0x20, orig ^ 0x01, orig ^ 0x80, orig ^ 0xFF] } else { vec![0x00, 0x01, 0x7F, 0x80, 0xFF, orig.wrapping_add(1), orig.wrapping_sub(1), orig ^ 0x20] };
+        v.sort();
+        v.dedup();
+        v.retain(|x| *x != orig);
+        v
+    };
+    let mut mcases: Vec<(usize, usize, u8)> = vec![]; // (job, pos, value)
+    // manifest container of each unmutated file (independent walker): a mutation inside it changes what the two
+    // sides call "the manifest", so those mutants are judged walker-free (covered by no entry at all)
+    let containers: Vec<Vec<walk::R>> = jobs.iter().map(|(i, _, d)| walk::manifests(embed::kind(&bh[*i]), d).map(|m| m.into_iter().flat_map(|x| x.ranges).collect()).unwrap_or_default()).collect();
+    for (j, (_, _, data)) in jobs.iter().enumerate() {
+        let n = data.len();
+        let mut pos: Vec<usize> = if n <= 1200 {
+            (0..n).collect()
+        } else if thorough {
+            (0..600).chain(n - 600..n).collect()
+        } else {
+            (0..64).chain(n - 64..n).collect()
+        };
+        if n > 1200 {
+            // +-24 bytes around every boundary of the manifest container (segment / chunk / box headers and ends)
+            for r in &containers[j] {
+                for b in [r.start, r.end] {
+                    pos.extend(b.saturating_sub(24)..(b + 24).min(n));
+                }
+            }
+            pos.sort();
+            pos.dedup();
+        }
+        for p in pos {
+            for v in values(data[p], n > 1200) {
+                mcases.push((j, p, v));
+            }
+        }
+    }
+    run.space(&format!("box maps of {} files (box-hash seeds x 4 variants) x every byte position (whole file when <=1200 B; else {} plus +-24 B around every manifest-container boundary) x {}", jobs.len(),
+        if thorough { "first+last 600 B" } else { "first+last 64 B" }, if thorough { "all 255 other values (16 values for the files > 1200 B)" } else { "8 values {00,01,7F,80,FF,+1,-1,^20}" }), mcases.len() as u64 + jobs.len() as u64, true);
+    par::for_each(&mcases, |(j, p, v)| {
+        let (i, name, data) = &jobs[*j];
+        let mut d = data.clone();
+        d[*p] = *v;
+        // the walker's container is used only when the mutation leaves it exactly where it is in the seed
+        let same = walk::manifests(embed::kind(&bh[*i]), &d).map(|m| m.into_iter().flat_map(|x| x.ranges).collect::<Vec<_>>() == containers[*j]).unwrap_or(false);
+        let inside = containers[*j].iter().any(|r| r.start <= *p && *p < r.end);
+        map_case(run, &bh[*i], name, &d, Some((*p, *v)), &inherited[*j], same && !inside);
+    });
+    // data-hash regions for every format
+    let seeds = embed::seeds();
+    let mut lj = vec![];
+    for a in &seeds {
+        for (name, data) in variants(a) {
+            lj.push((a.clone(), name, data));
+        }
+        if thorough {
+            for n in embed::quick_lengths().into_iter().filter(|n| n % 7 == 0 || *n > 4096) {
+                if let Ok(o) = save(a.mime, &a.data, &embed::store(n, 1)) {
+                    lj.push((a.clone(), format!("store{n}"), o));
+                }
+            }
+        }
+    }
+    run.space("data-hash object locations: every seed of every writable format x {bare + store sizes}", lj.len() as u64, true);
+    par::for_each(&lj, |(a, name, data)| loc_case(run, a, name, data, name != "bare"));
+    run.sample(json!({"asset":"png-trailing","variant":"store301","mutation":null}));
+    run.sample(json!({"asset":"jpeg-rst","variant":"bare","mutation":null}));
+    run.sample(json!({"asset":"gif-ext","variant":"store46","mutation":[20, 255]}));
+    run.sample(json!({"asset":"jxl-foreign-jumb","variant":"store70001","mutation":null}));
 }
